@@ -1,0 +1,5 @@
+//go:build !verif
+
+package writer
+
+func verifKafkaStub() bool { return false }
